@@ -2,6 +2,7 @@ package state
 
 import (
 	"bytes"
+	"errors"
 	"math/big"
 	"slices"
 
@@ -82,6 +83,14 @@ func (bs *TokenTransferInfo) DecodeBinary(r *io.BinReader) {
 	bs.NewNEP11Batch = r.ReadBool()
 	bs.NewNEP17Batch = r.ReadBool()
 	lenBalances := r.ReadVarUint()
+	if r.Err != nil {
+		return
+	}
+	// Every element takes 8 bytes, so there can't be more of them than the data left.
+	if l := r.Len(); l >= 0 && lenBalances > uint64(l)/8 {
+		r.Err = errors.New("invalid format")
+		return
+	}
 	m := make(map[int32]uint32, lenBalances)
 	for range lenBalances {
 		key := int32(r.ReadU32LE())
